@@ -571,7 +571,22 @@ BodyEls(n, r) == {El("body", NoDef, v, 3, 0, "json") : v \in JsonVals(r)}
                     \cup {El("body", NoDef, v, 3, 0, m) : v \in MultipartVals(r), m \in {"multipart", "multipart-file"}}
                     \cup {El("body", NoDef, v, 3, 0, "form") : v \in ObjVals(r)}
                     \cup {El("body", NoDef, v, 3, 0, "text") : v \in TextVals(n)}
-Elements(n, r) == ParamEls(n, r) \cup LongEls(r) \cup UrlEls \cup BodyEls(n, r)
+(* ---- history of sends.  ONE case (query q = the value, cookie c = 1, header X-H = h) is sent two or three times; a send may carry    *)
+(* call-level extras (case.call(params= / headers= / cookies=)).  Every request must be the case plus THAT call's extras - nothing     *)
+(* from an earlier call - and sending must leave the case's own containers as they were.  `tmpl` encodes the history: 100 * length +    *)
+(* the base-4 number of its steps.                                                                                                      *)
+StepKinds == <<"plain", "params", "headers", "cookies">>
+Pow4(k) == IF k = 0 THEN 1 ELSE IF k = 1 THEN 4 ELSE 16
+HistOf(code) == [j \in 1..(code \div 100) |-> StepKinds[(((code % 100) \div Pow4(j - 1)) % 4) + 1]]
+HistCodes == {200 + c : c \in 0..15} \cup {300 + c : c \in 0..63}
+HistVals == {VPrim(PStr(s)) : s \in {<<97>>, <<97, 32, 97, 38, 97, 61, 49>>}}                  \* "a", "a a&a=1"
+HistEls == {El("hist", NoDef, v, 3, c, "none") : v \in HistVals, c \in HistCodes}
+tQ == <<113>>   tC == <<99>>   tD == <<100>>   t1 == <<49>>   t2 == <<50>>   tLimit == <<108, 105, 109, 105, 116>>   t10 == <<49, 48>>
+tH == <<104>>   tE == <<101>>
+WantQueryPairs(v, step) == {<<tQ, Coerce(v.items[1])>>} \cup (IF step = "params" THEN {<<tLimit, t10>>} ELSE {})
+WantCookiePairs(step) == {<<tC, t1>>} \cup (IF step = "cookies" THEN {<<tD, t2>>} ELSE {})
+WantOwnHeaders(step) == {<<"x-h", tH>>} \cup (IF step = "headers" THEN {<<"x-e", tE>>} ELSE {})
+Elements(n, r) == ParamEls(n, r) \cup LongEls(r) \cup UrlEls \cup BodyEls(n, r) \cup HistEls
 
 VARIABLE el
 Init == el \in Elements(StrLen, Rich)
@@ -584,9 +599,9 @@ Spec == Init /\ [][Next]_el
 LowerCase(t) == [i \in 1..Len(t) |-> IF t[i] \in 65..90 THEN t[i] + 32 ELSE t[i]]
 MediaTypeOf(t) == LowerCase(Reverse(StripLeft(Reverse(StripLeft(SplitFirst(t, cSEMI).a)))))
 
-TypeOK == el.kind \in {"param", "url", "body"} /\ el.val.k \in {"prim", "arr", "obj"}
+TypeOK == el.kind \in {"param", "url", "body", "hist"} /\ el.val.k \in {"prim", "arr", "obj"}
 (* the decoders are left inverses of the table's encoder on the fragment *)
-RoundTrip == (el.kind # "body" /\ Fragment(el.def, el.val) = "T")
+RoundTrip == (el.kind \in {"param", "url"} /\ Fragment(el.def, el.val) = "T")
                 => ParamVerdict(el.def, el.val, RefWire(el.def, el.val), FALSE).v = "T"
 (* percent-encoding and UTF-8 are inverse on every text of the family *)
 CodecRoundTrip == \A t \in Texts(el.val) : /\ Txt(PctEncode(t), "pct") = [t |-> t, bad |-> FALSE]
@@ -599,7 +614,10 @@ JsonRoundTrip == LET j == JsonParse(JsonText(el.val)) IN j.ok /\ SameTyped(j.val
 CoerceJsonLike == \A i \in 1..Len(el.val.items) : el.val.items[i].t = "bool" => Coerce(el.val.items[i]) \in {<<116, 114, 117, 101>>, <<102, 97, 108, 115, 101>>}
 
 Export == PrintT(<<"CASE", ToJson([kind |-> el.kind, def |-> el.def, val |-> el.val, base |-> el.base, tmpl |-> el.tmpl, media |-> el.media,
-                                   fragment |-> IF el.kind # "body" THEN Fragment(el.def, el.val) ELSE "T",
+                                   hist |-> IF el.kind = "hist" THEN HistOf(el.tmpl) ELSE <<>>,
+                                   fragment |-> IF el.kind \in {"param", "url"} THEN Fragment(el.def, el.val) ELSE "T",
                                    want |-> Expected(el.val),
                                    ref |-> IF el.kind = "param" THEN RefEncode(el.def, el.val) ELSE <<>>])>>)
+(* every history has 2 or 3 steps, each one of the four kinds *)
+HistSane == el.kind = "hist" => LET h == HistOf(el.tmpl) IN Len(h) \in {2, 3} /\ \A j \in 1..Len(h) : h[j] \in {"plain", "params", "headers", "cookies"}
 =============================================================================
